@@ -191,6 +191,7 @@ class Scheduler:
         self.base, self.pgen = _parso_dirs()
         self._traced = {}
         self.step_cap_hit = False
+        self.probe = None                # called as probe(step, frame) at every counted line (profiling runs)
 
     # -- schedule tape
     def _next_switch(self):
@@ -257,6 +258,8 @@ class Scheduler:
                 self.step_cap_hit = True
                 raise _Abort('step cap')
             self.left -= 1
+            if self.probe is not None:
+                self.probe(self.steps, frame)
             if self.newline_p and self.spos > len(self._replayed):
                 # "new line" pre-emption (generate mode only; the recorded quanta replay it): a source
                 # line that no thread of this process has executed yet is where first-use races live.
@@ -357,16 +360,20 @@ def child_reference(plan):
     from . import fingerprint
     _warm(plan)
     fp0 = fingerprint.fingerprint(True)
+    sh0 = fingerprint.shallow_state()
     out = {}
     order = [(t, j) for t in range(len(plan['threads'])) for j in range(len(plan['threads'][t]))]
     for (t, j) in order:
         out['%d.%d' % (t, j)] = op_outcome(plan['threads'][t][j])
     fp1 = fingerprint.fingerprint(True)
+    sh1 = fingerprint.shallow_state()
     out2 = {}
     for (t, j) in order:
         out2['%d.%d' % (t, j)] = op_outcome(plan['threads'][t][j])
     fp2 = fingerprint.fingerprint(True)
-    return {'outcomes': out, 'outcomes2': out2, 'fp0': fp0, 'fp1': fp1, 'fp2': fp2}
+    shallow_changed = sorted(k for k in sh1 if sh0.get(k) != sh1[k])
+    return {'outcomes': out, 'outcomes2': out2, 'fp0': fp0, 'fp1': fp1, 'fp2': fp2,
+            'destructive': fingerprint.destructive_changes(sh0, sh1), 'shallow_changed': shallow_changed}
 
 
 def child_concurrent(plan, generate, seed):
@@ -545,6 +552,237 @@ def make_plan(seed, tier='quick'):
 
 
 # ---------------------------------------------------------------------------
+# write-event profile and directed schedules ("scan" plans)
+# ---------------------------------------------------------------------------
+FIRST_USE_LABELS = ('parso.grammar._loaded_grammars', 'parso.python.tokenize._token_collection_cache')
+
+
+def child_profile(plan):
+    """Each op of thread 0 executed alone under the scheduler's own step counting, with the write
+    tracker as probe: where (at which traced line) does this call write to process-wide state?"""
+    from . import writes
+    _warm(plan)
+    res = []
+    for op in plan['threads'][0]:
+        tracker = writes.WriteTracker()
+        sub = dict(plan, threads=[[op]], switches=[], more=[], config=dict(plan['config'], first=0, perm=None))
+        s = Scheduler(sub, False, 0)
+        s.probe = tracker.probe
+        s.run()
+        res.append({'events': tracker.events, 'steps': s.steps, 'error': s.error, 'cells': tracker.n_cells,
+                    'outcome': s.outcomes.get((0, 0))})
+    return res
+
+
+def _scan_text(rng):
+    """One snippet, or several glued together: one call then walks through many kinds of syntax."""
+    pool_ = STATEFUL_TEXTS + corpus.SNIPPETS
+    n = rng.choice([1, 1, 2, 3, 5, 8, 12])
+    parts = []
+    for _ in range(n):
+        r = rng.random()
+        if r < 0.6:
+            t = rng.choice(pool_)
+        elif r < 0.8:
+            t = corpus.gen_block(rng, rng.randint(2, 8))
+        else:
+            t = rng.choice(corpus.failing())
+        parts.append(t if t.endswith('\n') or n == 1 else t + '\n')
+    return ''.join(parts)
+
+
+SCAN_KINDS = ['errors', 'errors', 'pep8', 'parse', 'tokenize', 'custom', 'names', 'loadpath', 'parse-strict', 'parse-start']
+
+
+def _scan_op(rng, version):
+    kind = rng.choice(SCAN_KINDS)
+    op = {'k': kind, 'v': version, 'text': _scan_text(rng)}
+    if kind == 'parse-strict':
+        op.update(k='parse', recovery=False)
+    elif kind == 'parse-start':
+        op.update(k='parse', start=rng.choice(['eval_input', 'expr_stmt', 'file_input']),
+                  text=rng.choice(['a + b\n', 'x = 1', 'f(x)[1]', 'lambda: 0', 'a if b else', '[x := 1 for y in z]']))
+    if op['k'] in ('parse', 'errors', 'pep8') and rng.random() < 0.1:
+        op['as_bytes'] = True
+    return op
+
+
+_CHUNKS = None
+SYS_KINDS = ['errors', 'pep8', 'custom', 'names']      # parse and tokenize are part of each of these
+SYS_VERSIONS = ['3.14', '3.8', '3.6', '3.10', '3.12', '3.7', '3.9', '3.11', '3.13']
+
+
+def scan_chunks():
+    """The embedded texts glued into chunks of about ten: one profiled call per (chunk, kind,
+    version) walks through every kind of syntax the corpus has.  Texts that CPython compiles come
+    first in a chunk so that an unclosed bracket does not swallow the others."""
+    global _CHUNKS
+    if _CHUNKS is None:
+        def ok(t):
+            try:
+                compile(t, '<corpus>', 'exec', dont_inherit=True)
+                return 0
+            except (SyntaxError, ValueError):
+                return 1
+            except Exception:
+                return 1
+        import warnings
+        texts = STATEFUL_TEXTS + corpus.SNIPPETS
+        chunks = []
+        with warnings.catch_warnings():
+            warnings.simplefilter('ignore')
+            for i in range(0, len(texts), 10):
+                part = sorted(texts[i:i + 10], key=ok)
+                chunks.append(''.join(t if t.endswith('\n') else t + '\n' for t in part))
+        _CHUNKS = chunks
+    return _CHUNKS
+
+
+def make_scan_plan(seed, idx, tier='quick'):
+    """Profile plan: thread 0 lists the calls to be profiled.  idx % 3 == 0: systematic (the next
+    chunk of the corpus under every call kind, warm); 1: random calls, warm; 2: one random call from
+    a cold start (first-use writes)."""
+    rng = random.Random('C18-scan/%d' % seed)
+    mode = idx % 3
+    cold = mode == 2
+    if mode == 0:
+        chunks = scan_chunks()
+        n = idx // 3
+        version = SYS_VERSIONS[(n // len(chunks)) % len(SYS_VERSIONS)]
+        text = chunks[n % len(chunks)]
+        ops = [{'k': k, 'v': version, 'text': text} for k in SYS_KINDS]
+    else:
+        version = corpus.VERSIONS[idx % len(corpus.VERSIONS)] if rng.random() < 0.7 else rng.choice(corpus.VERSIONS)
+        nops = 1 if cold else rng.choice([3, 4, 6])
+        ops = [_scan_op(rng, version) for _ in range(nops)]
+    cfg = {'quantum': rng.choice([30, 300, 3000]), 'warm': [] if cold else [version], 'first': 0, 'sequential': False,
+           'perm': None, 'rounds': 1, 'pgen_atomic': rng.random() < 0.5, 'burst': 0, 'newline_p': 0.0, 'freeze_p': 0.0,
+           'scan': {'cold': cold, 'systematic': mode == 0, 'max_attempts': 8 if tier == 'quick' else 16}}
+    return {'sim': 'threadsim', 'seed': seed, 'config': cfg, 'threads': [ops], 'switches': [], 'more': []}
+
+
+INF = 1 << 40
+
+
+def directed_prefixes(events, rng, limit):
+    """Switch-list prefixes that park thread 0 around a write event and let thread 1 run there.
+    S1: 0 parks, 1 runs its whole call.  S2: 0 parks, 1 parks at (about) the same place of its own
+    call, 0 goes on.  S3: like S2, then both creep forward a line or two at a time."""
+    # one code location may write many times in one call (once per construct in the text): take the
+    # dynamic instances round-robin over the locations, at most four per location
+    by_loc = {}
+    for (step, lab, fn, line) in events:
+        by_loc.setdefault((lab.split(' (within')[0], fn, line), []).append(step)
+    for key, steps in by_loc.items():
+        steps = sorted(set(steps))
+        if len(steps) > 4:
+            steps = steps[:2] + [steps[-1]] + [rng.choice(steps[2:-1])]
+        by_loc[key] = steps
+    uniq = []
+    for i in range(4):
+        for key in by_loc:
+            if i < len(by_loc[key]) and by_loc[key][i] not in uniq:
+                uniq.append(by_loc[key][i])
+    if len(uniq) > 24:
+        uniq = uniq[:12] + rng.sample(uniq[12:], 12)
+    cands = []
+    for off, strat in ((0, 'S1'), (-1, 'S2'), (-2, 'S3'), (1, 'S1'), (-1, 'S1'), (0, 'S2'), (-3, 'S2'), (-5, 'S1'), (2, 'S3')):
+        for step in uniq:
+            s = step + off
+            if any(lab.endswith('lines)') for (st, lab, _, _) in events if st == step):
+                s = step - rng.randrange(0, 64)          # a coarse event: somewhere in the last 64 lines
+            if s >= 1:
+                cands.append((s, strat))
+    out = []
+    for s, strat in cands[:limit]:
+        if strat == 'S1':
+            pre = [[s, 0], [INF, 0]]
+        elif strat == 'S2':
+            pre = [[s, 0], [max(1, s + rng.randint(-2, 2)), 0]]
+        else:
+            pre = [[s, 0], [max(1, s + rng.randint(-2, 2)), 0]] + [[rng.randint(1, 3), 0] for _ in range(300)]
+        out.append((strat, s, pre))
+    return out
+
+
+def run_scan(seed, tier, scan=None):
+    """Profile the plan's calls; for every call that writes to shared state, run two threads making
+    that call with the second thread scheduled into the first one's write window."""
+    import copy
+    scan = scan or make_scan_plan(seed, seed // 4, tier)
+    rng = random.Random('C18-scan-run/%d' % seed)
+    cold = scan['config']['scan']['cold']
+    prof = _in_child(child_profile, scan)
+    stats = {'scan.plans': 1, 'scan.cold' if cold else ('scan.systematic' if scan['config']['scan'].get('systematic') else 'scan.warm'): 1}
+    res = {'violation': None, 'harness_error': None, 'digest': '', 'steps': 0, 'nontrivial': False,
+           'switch_digest': '', 'switches': 0, 'nontrivial_switches': 0, 'stats': stats}
+    if prof[0] != 'ok':
+        res['harness_error'] = 'profile child failed: %s' % prof[1]
+        return scan, res
+    prof = prof[1]
+    dig = hashlib.sha1()
+    last_plan = scan
+    for op, pr in zip(scan['threads'][0], prof):
+        stats['scan.calls_profiled'] = stats.get('scan.calls_profiled', 0) + 1
+        stats['scan.lines_profiled'] = stats.get('scan.lines_profiled', 0) + pr['steps']
+        res['steps'] += pr['steps']
+        if pr['error']:
+            res['harness_error'] = 'profile run: %s' % pr['error']
+            return scan, res
+        events = pr['events']
+        dig.update(repr((pr['steps'], [e[0] for e in events], sorted(e[1] for e in events))).encode())
+        if not events:
+            continue
+        if not cold:
+            stats['scan.warm_calls_with_writes'] = stats.get('scan.warm_calls_with_writes', 0) + 1
+            if len(scan['threads'][0]) > 1:
+                # exact step numbers: the call alone, from the start state the directed runs will have
+                single = dict(scan, threads=[[op]])
+                p1 = _in_child(child_profile, single)
+                if p1[0] != 'ok' or p1[1][0]['error']:
+                    res['harness_error'] = 'profile child failed: %r' % (p1[1],)
+                    return scan, res
+                events = p1[1][0]['events'] or events
+        n_first_use = sum(1 for e in events if e[1].startswith(FIRST_USE_LABELS))
+        stats['scan.first_use_writes'] = stats.get('scan.first_use_writes', 0) + n_first_use
+        stats['scan.other_writes'] = stats.get('scan.other_writes', 0) + len(events) - n_first_use
+        for e in events:
+            if not e[1].startswith(FIRST_USE_LABELS):
+                k = 'scan.write:%s' % e[1].split(' (within')[0][:70]
+                stats[k] = stats.get(k, 0) + 1
+        cfg = dict(scan['config'], first=0, newline_p=0.0)
+        cfg.pop('scan')
+        cfg['directed'] = True
+        base = {'sim': 'threadsim', 'seed': seed, 'config': cfg, 'threads': [[dict(op)], [dict(op)]], 'switches': [], 'more': []}
+        other = dict(base, threads=[[dict(op)], [dict(_scan_op(rng, op['v']), k=op['k'])]])
+        ref = _in_child(child_reference, base)
+        ref_other = None
+        for a, (strat, s, pre) in enumerate(directed_prefixes(events, rng, scan['config']['scan']['max_attempts'])):
+            use_other = strat == 'S1' and a % 3 == 2
+            if use_other and ref_other is None:
+                ref_other = _in_child(child_reference, other)
+            p = copy.deepcopy(other if use_other else base)
+            p['switches'] = [list(x) for x in pre]
+            p['config']['directed_at'] = [strat, s]
+            r = evaluate(p, True, seed * 131 + a, reference=ref_other if use_other else ref)
+            stats['scan.directed_runs'] = stats.get('scan.directed_runs', 0) + 1
+            last_plan = p
+            if r['harness_error']:
+                res['harness_error'] = r['harness_error']
+                return p, res
+            for k in ('steps', 'switches', 'nontrivial_switches'):
+                res[k] += r.get(k, 0)
+            res['nontrivial'] = res['nontrivial'] or r['nontrivial']
+            dig.update(r['digest'].encode())
+            if r['violation'] is not None:
+                res['violation'] = r['violation']
+                res['digest'] = r['digest']
+                return p, res
+    res['digest'] = dig.hexdigest()
+    return last_plan, res
+
+
+# ---------------------------------------------------------------------------
 # one run + oracle
 # ---------------------------------------------------------------------------
 def evaluate(plan, generate, seed, reference=None):
@@ -592,13 +830,22 @@ def evaluate(plan, generate, seed, reference=None):
                                   _short(r['outcomes2'][key]))}
                 break
     if v is None:
-        # first-use memoisation lives in the loaded-grammar and token-collection tables; state of any
-        # other module that is different after the calls was modified by them
-        changed = sorted(k for k in r['fp1'] if r['fp0'].get(k) != r['fp1'][k] and k not in FIRST_USE_MODULES)
-        if changed:
-            v = {'clause': 'state-modified-by-calls', 'sig': 'state-modified-by-calls:' + ','.join(changed)[:80],
-                 'detail': 'the calls changed shared state of %s (first-use memoisation is only expected in %s)'
-                           % (changed, list(FIRST_USE_MODULES))}
+        # First-use memoisation is allowed: a global or class attribute that goes from None to a value,
+        # a table that only gains entries.  A value that is replaced, or a container that loses or
+        # alters elements, was modified by the calls.  A module whose deep fingerprint changed without
+        # any change of that shape among its named globals / class attributes is reported too, unless it
+        # is one of the two modules that hold the loaded grammars and the token collections.
+        if r['destructive']:
+            keys = [k for k, _ in r['destructive']]
+            v = {'clause': 'state-modified-by-calls', 'sig': 'state-modified-by-calls:' + ','.join(keys)[:80],
+                 'detail': 'the calls modified shared state beyond first-use memoisation: %s' % (r['destructive'][:6],)}
+        else:
+            changed = sorted(k for k in r['fp1'] if r['fp0'].get(k) != r['fp1'][k] and k not in FIRST_USE_MODULES
+                             and not any(x.startswith(k + '.') for x in r['shallow_changed']))
+            if changed:
+                v = {'clause': 'state-modified-by-calls', 'sig': 'state-modified-by-calls:' + ','.join(changed)[:80],
+                     'detail': 'the calls changed shared state of %s (not explained by first-use memoisation of a named '
+                               'global or class attribute)' % (changed,)}
     if v is None and r['fp1'] != r['fp2']:
         diff = sorted(k for k in r['fp1'] if r['fp1'][k] != r['fp2'].get(k))
         v = {'clause': 'state-not-write-once', 'sig': 'state-not-write-once:' + ','.join(diff)[:80],
@@ -621,6 +868,8 @@ def _short(o):
 
 
 def run_seed(seed, tier):
+    if seed % 4 == 3:
+        return run_scan(seed, tier)
     plan = make_plan(seed, tier)
     attempts = plan['config'].get('attempts', 1)
     if attempts <= 1:
@@ -769,6 +1018,8 @@ def _worker(args):
         out['counters']['schedules'] = out['counters'].get('schedules', 0) + plan['config'].get('rounds', 1)
         out['nontrivial_switches'] += res['nontrivial_switches']
         c = out['counters']
+        for k, v in res.get('stats', {}).items():
+            c[k] = c.get(k, 0) + v
         key = 'threads=%d' % len(plan['threads'])
         c[key] = c.get(key, 0) + 1
         key = 'quantum=%d' % plan['config']['quantum']
@@ -799,14 +1050,17 @@ def digest_batch(tier, seeds):
     out = []
     for s in seeds:
         plan, res = run_seed(s, tier)
-        res2 = replay_plan(plan)
+        if s % 4 == 3 and res['violation'] is None:
+            res2 = run_seed(s, tier)[1]          # a scan plan: profile + directed runs, executed twice
+        else:
+            res2 = replay_plan(plan)
         out.append((s, res['digest'], res2['digest'], res['violation'] and res['violation']['sig']))
     return out
 
 
 def selftest(tier, base_seed, n):
     import subprocess
-    seeds = [base_seed * 1_000_000 + 500_000 + i for i in range(n)]
+    seeds = [base_seed * 1_000_000 + 500_000 + i + (4 if (500_000 + i) % 12 == 3 else 0) for i in range(n)]   # (no systematic scan plan: 4 x 20 s)
     procs = []
     for hs in ('0', '12345'):
         env = dict(os.environ, PYTHONHASHSEED=hs)
@@ -862,10 +1116,20 @@ def run_check(tier, base_seed, wall, workers, do_selftest):
     chunk = 6
 
     def tasks():
+        # two streams: chunks of consecutive seeds (random plans, cold sweep, random scans) and, as every
+        # third task, the next systematic scan plan (seeds = 3 mod 12) on its own, so that the
+        # enumeration corpus chunk x call kind x version advances at a fixed share of the budget
         lo = base_seed * 1_000_000
+        sys_seed = lo + 3
+        n = 0
         while True:
-            yield (tier, list(range(lo, lo + chunk)), deadline)
-            lo += chunk
+            n += 1
+            if n % 3 == 0:
+                yield (tier, [sys_seed], deadline)
+                sys_seed += 12
+            else:
+                yield (tier, [x for x in range(lo, lo + chunk) if x % 12 != 3], deadline)
+                lo += chunk
 
     def on_result(task, r, err):
         if err is not None:
